@@ -472,4 +472,3 @@ func childKill(dir string) {
 	c.Close()
 	os.Exit(0)
 }
-
